@@ -3,7 +3,7 @@
 
      <maxDepth|-1> <ncalls> ( <api> <k> <kind> <beh> )*
 
-  api: RP | CA n | CO n | TR | TG.   k: 0 = no fault, else the k-th probe of this call faults; kind: t | i.
+  api: RP | CA n | CO n | TR | TG | ER.   k: 0 = no fault, else the k-th probe of this call faults; kind: t | i.
   beh (prefix form): K | S a b | P id | T | I | Ft n b | Fc n b | Fn n b | Fo b | FO ret b | Fr b | Fb b
                    | Y hc hf body handler fin | G n b | At b | Aw b | Ap b | Bt b | Bw b | Bp b | J b
   Answer: per call  <outcome>|<trace>|<state>  joined by " ; ", where trace = "id:c,t,i,r …" and
@@ -91,6 +91,9 @@ def parseApi : List String → Option (TopApi × List String)
   | "CO" :: n :: r => some (.constructor (natOf n) theFn, r)
   | "TR" :: r => some (.try_, r)
   | "TG" :: r => some (.tryGet theFn, r)
+  -- Exception.Error(): valueString = vm.try(obj.String()) → __call toString; an uncatchable is swallowed after
+  -- leaveAbrupt at depth 0 (5151c81) — the control path of `tryGet`; the host always gets a string back
+  | "ER" :: r => some (.tryGet theFn, r)
   | _ => none
 
 def showOutcome : Outcome → String
@@ -121,7 +124,8 @@ def runCalls : Nat → List String → Vm → List String → Option (List Strin
       let kk := natOf k
       let s0 : Vm := { s with probeCount := 0, trace := [], faultAt := if kk = 0 then none else some (kk, fk) }
       let (o, s1) := apiCall modelFuel api b s0
-      let out := s!"{showOutcome o}|{showTrace s1.trace}|{showState s1}"
+      let shown := if toks.head? == some "ER" && o != .stuck then "ok" else showOutcome o
+      let out := s!"{shown}|{showTrace s1.trace}|{showState s1}"
       runCalls n r3 s1 (out :: acc)
     | _ => none
 
